@@ -792,7 +792,14 @@ class Interp:
                             outs.extend(self._exec_stmt(s, s2, fr))
                     if outs:
                         return outs
-            v = self.eval(s.value, st, fr, effects=True)
+            unpack = isinstance(s.value, (ast.Tuple, ast.List)) and any(isinstance(t, (ast.Tuple, ast.List)) for t in s.targets)
+            if unpack:
+                self._no_refs = getattr(self, "_no_refs", 0) + 1   # `a, b = (x.p, x.q)` copies the values of the right-hand side
+            try:
+                v = self.eval(s.value, st, fr, effects=True)
+            finally:
+                if unpack:
+                    self._no_refs -= 1
             ref = self._ref_of(s.value, v, st, fr)
             for t in s.targets:
                 if ref is not None and isinstance(t, ast.Name):
@@ -1613,6 +1620,8 @@ class Interp:
             st.trace.append(mev)
             if isinstance(cur, ListV) and cur.fresh and op == "append" and len(args) == 1:
                 st.heap[(base.name, recv_expr.attr)] = ListV(cur.items + [args[0]], True, cur.kind)
+            elif isinstance(cur, ListV) and cur.fresh and op in ("extend", "update") and len(args) == 1 and isinstance(args[0], ListV):
+                st.heap[(base.name, recv_expr.attr)] = ListV(cur.items + list(args[0].items), True, cur.kind)
             elif isinstance(cur, ListV) and cur.fresh and op == "remove" and len(args) == 1 and \
                     all(self._equal(args[0], x) is not None for x in cur.items) and any(self._equal(args[0], x) for x in cur.items):
                 items = list(cur.items)
@@ -1768,8 +1777,8 @@ class Interp:
             for x in e.elts:
                 v = self.eval(x, st, fr, effects)
                 # an element written as `obj.some_list` is that list itself, not a copy (tables of records to be edited alike)
-                r = self._ref_of(x, v, st, fr) if isinstance(x, (ast.Attribute, ast.Name)) else None
-                if r is None and isinstance(x, ast.Name) and isinstance(v, ListV) and v.fresh and v.kind in ("list", "set") and x.id in st.env:
+                r = self._ref_of(x, v, st, fr) if isinstance(x, (ast.Attribute, ast.Name)) and not getattr(self, "_no_refs", 0) else None
+                if r is None and not getattr(self, "_no_refs", 0) and isinstance(x, ast.Name) and isinstance(v, ListV) and v.fresh and v.kind in ("list", "set") and x.id in st.env:
                     r = RefV(None, x.id)   # a local list placed in a table: the table entry *is* that list
                 items.append(r or v)
             return ListV(items, True, "tuple" if isinstance(e, ast.Tuple) else "list")
@@ -1835,6 +1844,10 @@ class Interp:
             return self._eval_comp(e, st, fr)
         if isinstance(e, ast.Lambda):
             return FuncV(e)
+        if isinstance(e, ast.NamedExpr) and isinstance(e.target, ast.Name):
+            v = self.eval(e.value, st, fr, effects)
+            st.env[e.target.id] = v
+            return v
         if isinstance(e, ast.JoinedStr):
             return Unk("fstr", ("prim", "str"))
         if isinstance(e, ast.Starred):
